@@ -23,6 +23,7 @@ type env struct {
 	repo     string
 	scratch  string
 	thorough bool
+	scale    int // depth multiplier of the thorough tier (GVH_SCALE, default 3); 1 in the quick tier
 }
 
 var campaigns = map[string]func(*env) error{}
@@ -48,6 +49,13 @@ func main() {
 		os.Exit(2)
 	}
 	e := &env{prop: prop, tier: *tier, seed: seed, r: rng.New(seed), verif: *verif, repo: *repo, scratch: *scratch, thorough: *tier == "thorough"}
+	e.scale = 1
+	if e.thorough {
+		e.scale = 3
+		if v, err := strconv.Atoi(os.Getenv("GVH_SCALE")); err == nil && v > 0 {
+			e.scale = v
+		}
+	}
 	e.rep = rep.New(prop, *tier, seed, *verif+"/replays/"+prop, *verif+"/known_findings.json")
 	if e.scratch == "" {
 		d, err := os.MkdirTemp("", "gvh-"+prop+"-")
